@@ -50,6 +50,13 @@ class RecSource(ScheduleSource):
             await asyncio.sleep(lat)
         if n in self.spec.get("fail_calls", []):
             self.rec.add("poll_fail", src=self.idx, n=n)
+            kind = (self.spec.get("fail_exc") or ["SourceBoom"])[n % len(self.spec.get("fail_exc") or ["SourceBoom"])]
+            if kind == "TimeoutError":
+                raise TimeoutError  # bare, no message (what asyncio.wait_for raises)
+            if kind == "ConnectionError":
+                raise ConnectionError
+            if kind == "KeyError":
+                raise KeyError("k")
             raise SourceBoom(f"source {self.idx} call {n}")
         listed = list(self.items)
         self.rec.add("poll_ok", src=self.idx, n=n, ids=[s.schedule_id for s in listed])
@@ -151,6 +158,7 @@ def gen_c15_spec(rng: random.Random, minutes_max: int) -> Dict[str, Any]:
         src: Dict[str, Any] = {"items": items, "lat": rng.choice([0, 0, 0.001, 0.2, 0.9])}
         if rng.random() < 0.3:
             src["fail_calls"] = sorted(rng.sample(range(npolls), rng.randint(1, min(3, npolls))))
+            src["fail_exc"] = [rng.choice(["SourceBoom", "TimeoutError", "ConnectionError", "KeyError"]) for _ in range(3)]
         sources.append(src)
     nk = 6 * minutes + 10
     spec: Dict[str, Any] = {"start_us": start, "minutes": minutes, "sources": sources,
@@ -475,6 +483,35 @@ class CbSource(ScheduleSource):
         self.rec.append(("post_send", task.schedule_id))
 
 
+class DelegatingSource(ScheduleSource):
+    """Hooks are plain functions that return an awaitable (they delegate to an inner async source)."""
+
+    def __init__(self, rec: List[Any], spec: Dict[str, Any]) -> None:
+        sp = dict(spec)
+        sp["pre_async"] = True
+        sp["post_async"] = True
+        self.inner = CbSource(rec, sp)
+        self.wrap = spec.get("delegate_wrap", "coroutine")
+
+    async def get_schedules(self) -> List[ScheduledTask]:
+        return []
+
+    def _ret(self, coro: Any) -> Any:
+        if self.wrap == "future":
+            return asyncio.ensure_future(coro)
+        if self.wrap == "awaitable":
+            from mon.worker_harness import _Aw
+
+            return _Aw(coro)
+        return coro
+
+    def pre_send(self, task: ScheduledTask) -> Any:  # type: ignore[override]
+        return self._ret(self.inner.pre_send(task))
+
+    def post_send(self, task: ScheduledTask) -> Any:  # type: ignore[override]
+        return self._ret(self.inner.post_send(task))
+
+
 class InstSource(ScheduleSource):
     """A source whose hooks are bound on the instance (callbacks passed in), not overridden on the class."""
 
@@ -508,14 +545,20 @@ def gen_c16a(rng: random.Random) -> Dict[str, Any]:
             "kwargs": {f"k{i}": gen_json_tree(rng) for i in range(rng.randint(0, 3))},
             "labels": labels, "cancel": rng.random() < 0.3, "pre_async": rng.random() < 0.5,
             "post_async": rng.random() < 0.5, "kind": rng.choice(["cron", "time"]),
-            "inst_hooks": rng.random() < 0.25}
+            "inst_hooks": rng.random() < 0.2, "delegate": rng.random() < 0.2,
+            "delegate_wrap": rng.choice(["coroutine", "future", "awaitable"]),
+            # further schedules fired on the same scheduler instance afterwards (state must not carry over)
+            "more": [{"sid": f"sch-more-{j}", "task_name": rng.choice(["mod:task", "t", "other"]),
+                      "labels": {f"m{rng.randint(0, 3)}": enc_label(gen_label_value(rng)) for _ in range(rng.randint(0, 2))},
+                      "args": [rng.randint(0, 5)], "kwargs": {}} for j in range(rng.choice([0, 0, 1, 2, 3]))]}
 
 
 def run_c16a(spec: Dict[str, Any]) -> "tuple[List[Violation], Any]":
     v: List[Violation] = []
     rec: List[Any] = []
     broker = KBroker(rec)
-    src: Any = InstSource(rec, spec) if spec.get("inst_hooks") else CbSource(rec, spec)
+    src: Any = InstSource(rec, spec) if spec.get("inst_hooks") else (
+        DelegatingSource(rec, spec) if spec.get("delegate") else CbSource(rec, spec))
     labels = {k: dec_label(x) for k, x in spec["labels"].items()}
     kw: Dict[str, Any] = {"cron": "* * * * *"} if spec["kind"] == "cron" else {"time": datetime(2030, 1, 1)}
     task = ScheduledTask(task_name=spec["task_name"], labels=copy.deepcopy(labels), args=copy.deepcopy(spec["args"]),
@@ -557,6 +600,35 @@ def run_c16a(spec: Dict[str, Any]) -> "tuple[List[Violation], Any]":
         v.append(Violation("kick-count", f"{len(broker.sent)} messages sent for one firing"))
     if spec["cancel"] and broker.sent:
         v.append(Violation("sent-after-cancel", "message sent although pre_send cancelled"))
+    # further firings on the same scheduler / source: each message carries exactly its own schedule's payload
+    for extra in spec.get("more", []):
+        if spec["cancel"]:
+            break
+        n0 = len(broker.sent)
+        lab = {k: dec_label(x) for k, x in extra["labels"].items()}
+        t2 = ScheduledTask(task_name=extra["task_name"], labels=copy.deepcopy(lab), args=list(extra["args"]),
+                           kwargs=dict(extra["kwargs"]), schedule_id=extra["sid"], cron="* * * * *")
+
+        async def main2(loop: Any, t2: Any = t2) -> None:
+            await sch.on_ready(src, t2)
+
+        try:
+            run_virtual(main2)
+        except BaseException as exc:  # noqa: BLE001
+            v.append(Violation("on-ready-raised", f"later firing raised {exc!r}"))
+            break
+        if len(broker.sent) != n0 + 1:
+            v.append(Violation("kick-count", f"later firing {extra['sid']}: {len(broker.sent) - n0} messages sent"))
+            break
+        m2 = broker.formatter.loads(broker.sent[-1].message)
+        m2.parse_labels()
+        got2 = dict(m2.labels)
+        want2 = dict(lab)
+        want2["schedule_id"] = extra["sid"]
+        if m2.task_name != extra["task_name"] or not strict_eq(m2.args, extra["args"]):
+            v.append(Violation("payload-args", f"later firing {extra['sid']}: sent {m2.task_name} {m2.args!r}"))
+        if not labels_eq(got2, want2):
+            v.append(Violation("payload-labels-leak", f"later firing {extra['sid']} on the same scheduler: sent labels {jsonable(got2)}, schedule has {jsonable(want2)}"))
     return v, rec
 
 
@@ -587,7 +659,10 @@ def gen_c16b(rng: random.Random) -> Dict[str, Any]:
         tasks.append({"name": f"lt{ti}", "where": rng.choice(["own", "own", "own", "foreign", "shared"]), "entries": entries,
                       "extra_labels": rng.choice([{}, {"x": 1}])})
     nfire = rng.randint(0, 6)
-    return {"mode": "label_source", "tasks": tasks, "fire_seed": rng.randint(0, 10 ** 9), "nfire": nfire}
+    return {"mode": "label_source", "tasks": tasks, "fire_seed": rng.randint(0, 10 ** 9), "nfire": nfire,
+            # relist: list again before every firing; otherwise fire several schedules of one listing (what the
+            # scheduler loop does when several one-shots are due in the same poll)
+            "relist": rng.random() < 0.5}
 
 
 def _entry_key(task: str, e: Any) -> Any:
@@ -645,24 +720,36 @@ def run_c16b(spec: Dict[str, Any]) -> "tuple[List[Violation], Any]":
         return c
 
     async def main(loop: Any) -> None:
+        pending_batch: List[Any] = []
         try:
             for step in range(spec["nfire"] + 1):
-                listed = await src.get_schedules()
-                got: Counter = Counter()
-                for s in listed:
-                    got[repr((s.task_name, s.cron, s.time, jsonable(s.args), jsonable(s.kwargs)))] += 1
-                want = expected_multiset()
-                obs["listed"].append(len(listed))
-                if got != want:
-                    v.append(Violation("label-source-listing", f"step {step}: listed {sorted(got.items())}, declared {sorted(want.items())}"))
-                    return
-                for s in listed:
-                    if s.task_name not in declared:
-                        v.append(Violation("label-source-foreign-task", f"listed schedule of foreign task {s.task_name}"))
-                ones = [s for s in listed if s.time is not None and s.cron is None]
+                if spec.get("relist", True) or step == 0 or not pending_batch:
+                    listed = await src.get_schedules()
+                else:
+                    # keep firing schedules of the previous listing; verify the listing only when re-listing
+                    listed = None
+                if listed is not None:
+                    got: Counter = Counter()
+                    for s in listed:
+                        got[repr((s.task_name, s.cron, s.time, jsonable(s.args), jsonable(s.kwargs)))] += 1
+                    want = expected_multiset()
+                    obs["listed"].append(len(listed))
+                    if got != want:
+                        v.append(Violation("label-source-listing", f"step {step}: listed {sorted(got.items())}, declared {sorted(want.items())}"))
+                        return
+                    for s in listed:
+                        if s.task_name not in declared:
+                            v.append(Violation("label-source-foreign-task", f"listed schedule of foreign task {s.task_name}"))
+                    ones = [s for s in listed if s.time is not None and s.cron is None]
+                else:
+                    ones = pending_batch
+                if not spec.get("relist", True) and step > 0 and pending_batch:
+                    ones = pending_batch
                 if step == spec["nfire"] or not ones:
                     break
                 s = rng.choice(ones)
+                if not spec.get("relist", True):
+                    pending_batch = [x for x in ones if x is not s]
                 before = copy.deepcopy(declared)
                 await sch.on_ready(src, s)
                 obs["fired"].append((s.task_name, str(s.time)))
